@@ -25,6 +25,10 @@ CHECKS = {
    text="Generated and fuzzed octet streams (well-formed frames, structurally impossible frames, lying lengths, unknown types, truncations at every offset, raw bytes) are read until the first failure; each step is judged by an RFC 7540 section 6 validator (must fail / must succeed), x/net's reading, exact consumption, allocation before rejection and the pool observer (double release, two owners). HPACK.Next on arbitrary octets must make progress and bound its output. Exploration only.",
    note="Trusted: in-harness structure validator, x/net Framer, the pool hook (observes Get/Put only).",
    ref="6.2 C16"),
+ "C01": dict(technique="model-based property testing (rapid) of the served connection: scripted in-memory peer with an independent HPACK encoder/decoder and frame codec, generated encodings/fragmentations/interleavings/handler schedules, quiescence decided by hook counters",
+   text="Generated sets of well-formed requests are multiplexed over one in-memory connection with every wire-level freedom the property names (representation choice per field, HEADERS/CONTINUATION cuts at any octet, padding, priority, DATA chunking, cross-stream interleaving, handler release order, lock-step or burst); the handler's view and the frames received are compared with what was sent / produced. Exploration only: schedules inside the server's own goroutines are sampled, not enumerated.",
+   note="Trusted: in-harness reference HPACK + x/net Framer/decoder as the peer; fasthttp containers; hook counters (add no synchronisation) for quiescence.",
+   ref="6.2 C01"),
 }
 PENDING = {}  # id -> reason, for properties not claimed (yet)
 
